@@ -5,7 +5,11 @@ import (
 	"encoding/binary"
 	"encoding/hex"
 	"fmt"
+	"hash/fnv"
 	"io"
+	"math"
+	"sort"
+	"strconv"
 	"strings"
 
 	"github.com/paulmach/orb"
@@ -108,6 +112,175 @@ func frame(framing string, psrid uint32, b []byte) []byte {
 	panic("bad framing")
 }
 
+// canonGo is the value a WKB round trip denotes: rings and bounds become one-ring polygons.
+func canonGo(g orb.Geometry) orb.Geometry {
+	switch g := g.(type) {
+	case orb.Ring:
+		return orb.Polygon{g}
+	case orb.Bound:
+		return g.ToPolygon()
+	case orb.Collection:
+		c := make(orb.Collection, len(g))
+		for i := range g {
+			c[i] = canonGo(g[i])
+		}
+		return c
+	}
+	return g
+}
+
+// boundOracle: orb's own Bound() of the canonical value, the reference for the *orb.Bound destination
+// ("anything to its bound"); it lets the driver compare that destination bit for bit even when
+// coordinates are NaN or -0 (where the Lean bound model is not bit-compatible with math.Min/Max).
+func boundOracle(g orb.Geometry) string {
+	return guard(func() string { return gs(canonGo(g).Bound()) })
+}
+
+func fnvHex(s string) string {
+	h := fnv.New64a()
+	h.Write([]byte(s))
+	return fmt.Sprintf("%016x", h.Sum64())
+}
+
+// digest of a decode outcome for the large cases: kind, number of points, FNV-1a of the protocol text
+func wkbDigest(g orb.Geometry, srid int, err error) string {
+	if err != nil {
+		return "err " + wkbErrClass(err)
+	}
+	t := gs(g)
+	f := strings.Fields(t)
+	n := 0
+	for _, x := range f {
+		if len(x) == 16 {
+			n++
+		}
+	}
+	return fmt.Sprintf("ok %d %s %d %s", srid, f[0], n/2, fnvHex(t))
+}
+
+// bigGeom builds the parametric large geometries (mirrored by Driver.C01.bigGeom): point number k is
+// (bits base+2k, bits base+2k+1).
+func bigGeom(shape string, n int, base uint64) orb.Geometry {
+	pt := func(k int) orb.Point {
+		return orb.Point{math.Float64frombits(base + 2*uint64(k)), math.Float64frombits(base + 2*uint64(k) + 1)}
+	}
+	pts := func(k0, m int) []orb.Point {
+		ps := make([]orb.Point, m)
+		for i := range ps {
+			ps[i] = pt(k0 + i)
+		}
+		return ps
+	}
+	switch shape {
+	case "LS":
+		return orb.LineString(pts(0, n))
+	case "R":
+		return orb.Ring(pts(0, n))
+	case "MP":
+		return orb.MultiPoint(pts(0, n))
+	case "MLS":
+		m := make(orb.MultiLineString, n)
+		for i := range m {
+			m[i] = pts(3*i, i%3)
+		}
+		return m
+	case "PG":
+		m := make(orb.Polygon, n)
+		for i := range m {
+			m[i] = pts(3*i, i%3)
+		}
+		return m
+	case "MPG":
+		m := make(orb.MultiPolygon, n)
+		for i := range m {
+			pg := make(orb.Polygon, i%2+1)
+			for j := range pg {
+				pg[j] = pts(6*i+3*j, (i+j)%3)
+			}
+			m[i] = pg
+		}
+		return m
+	case "C":
+		c := make(orb.Collection, n)
+		for i := range c {
+			switch i % 4 {
+			case 0:
+				c[i] = pt(i)
+			case 1:
+				c[i] = orb.LineString(pts(2*i, 2))
+			case 2:
+				c[i] = orb.MultiPoint(pts(i, 1))
+			default:
+				c[i] = orb.Polygon{}
+			}
+		}
+		return c
+	case "CC":
+		in := make(orb.Collection, n)
+		for i := range in {
+			in[i] = pt(i)
+		}
+		return orb.Collection{in, pt(n)}
+	case "PGR":
+		return orb.Polygon{pts(0, n), pts(n, 3)}
+	case "MLSL":
+		return orb.MultiLineString{pts(0, n), pts(n, 2)}
+	case "MPGR":
+		return orb.MultiPolygon{{pts(0, n), pts(n, 1)}, {pts(n+1, 2)}}
+	case "CLS":
+		return orb.Collection{orb.LineString(pts(0, n)), pt(n), orb.Polygon{pts(n+1, n)}}
+	}
+	panic("bad big shape " + shape)
+}
+
+// apiAgree runs the remaining exported encoder entry points and reports which of them do not write
+// exactly `want` ("same" when all agree).
+func apiAgree(want []byte, variants map[string]func() ([]byte, error)) string {
+	var bad []string
+	names := make([]string, 0, len(variants))
+	for k := range variants {
+		names = append(names, k)
+	}
+	sort.Strings(names)
+	for _, k := range names {
+		f := variants[k]
+		r := guard(func() string {
+			b, err := f()
+			if err != nil {
+				return "err"
+			}
+			if !bytes.Equal(b, want) {
+				return "differs"
+			}
+			return ""
+		})
+		if r != "" {
+			bad = append(bad, r+":"+k)
+		}
+	}
+	if len(bad) == 0 {
+		return "same"
+	}
+	return strings.Join(bad, ",")
+}
+
+func unhex(s string) ([]byte, error) {
+	if s == "" {
+		return nil, nil
+	}
+	return hex.DecodeString(s)
+}
+
+// wscDest splits the destination token of `wsc`: "PG" (little endian, no SRID: wkb.Marshal) or
+// "PG:<order>:<srid>" (bytes written by ewkb.Marshal in that order with that SRID).
+func wscDest(tok string) (d string, ext bool, o binary.ByteOrder, srid int) {
+	f := strings.Split(tok, ":")
+	if len(f) == 3 {
+		return f[0], true, order(f[1]), pi(f[2])
+	}
+	return tok, false, binary.LittleEndian, 0
+}
+
 func runC01(op string, in []string) string {
 	r := &tokReader{t: in}
 	switch op {
@@ -137,7 +310,250 @@ func runC01(op string, in []string) string {
 			g2, s2, err := ewkb.NewDecoder(bytes.NewReader(data)).Decode()
 			return wkbOutcome(g2, s2, err)
 		})
-		return hexs + " ; " + um + " ; " + st
+		// every other exported EWKB encoder entry point must write the same bytes
+		vs := map[string]func() ([]byte, error){
+			"MustMarshal": func() ([]byte, error) { return ewkb.MustMarshal(g, srid, o), nil },
+			"MarshalToHex": func() ([]byte, error) {
+				h, err := ewkb.MarshalToHex(g, srid, o)
+				if err != nil {
+					return nil, err
+				}
+				return unhex(h)
+			},
+			"MustMarshalToHex": func() ([]byte, error) { return unhex(ewkb.MustMarshalToHex(g, srid, o)) },
+			"EncoderSetSRID": func() ([]byte, error) {
+				var buf bytes.Buffer
+				err := ewkb.NewEncoder(&buf).SetByteOrder(o).SetSRID(srid).Encode(g)
+				return buf.Bytes(), err
+			},
+			"EncoderArgSRID": func() ([]byte, error) {
+				var buf bytes.Buffer
+				err := ewkb.NewEncoder(&buf).SetByteOrder(o).Encode(g, srid)
+				return buf.Bytes(), err
+			},
+		}
+		if o == binary.LittleEndian {
+			vs["MarshalDefaultOrder"] = func() ([]byte, error) { return ewkb.Marshal(g, srid) }
+		}
+		if srid == ewkb.DefaultSRID {
+			vs["EncoderDefaultSRID"] = func() ([]byte, error) {
+				var buf bytes.Buffer
+				err := ewkb.NewEncoder(&buf).SetByteOrder(o).Encode(g)
+				return buf.Bytes(), err
+			}
+		}
+		return hexs + " ; " + um + " ; " + st + " ; " + apiAgree(data, vs)
+	case "wrt":
+		// the wkb package: Marshal with a byte order (+ every other encoder entry point), Unmarshal, NewDecoder
+		o := order(r.next())
+		g := r.geom()
+		hexs := guard(func() string {
+			b, err := wkb.Marshal(g, o)
+			if err != nil {
+				return "err"
+			}
+			return hexOrEmpty(b)
+		})
+		if hexs == "panic" || hexs == "err" {
+			return hexs
+		}
+		var data []byte
+		if hexs != "empty" {
+			data, _ = hex.DecodeString(hexs)
+		}
+		wo := func(g2 orb.Geometry, err error) string {
+			if err != nil {
+				return "err " + wkbErrClass(err)
+			}
+			return "ok 0 " + gs(g2)
+		}
+		um := guard(func() string { return wo(wkb.Unmarshal(append([]byte(nil), data...))) })
+		st := guard(func() string { return wo(wkb.NewDecoder(bytes.NewReader(data)).Decode()) })
+		vs := map[string]func() ([]byte, error){
+			"MustMarshal": func() ([]byte, error) { return wkb.MustMarshal(g, o), nil },
+			"MarshalToHex": func() ([]byte, error) {
+				h, err := wkb.MarshalToHex(g, o)
+				if err != nil {
+					return nil, err
+				}
+				return unhex(h)
+			},
+			"MustMarshalToHex": func() ([]byte, error) { return unhex(wkb.MustMarshalToHex(g, o)) },
+			"Encoder": func() ([]byte, error) {
+				var buf bytes.Buffer
+				err := wkb.NewEncoder(&buf).SetByteOrder(o).Encode(g)
+				return buf.Bytes(), err
+			},
+			"ewkbMarshalSRID0": func() ([]byte, error) { return ewkb.Marshal(g, 0, o) },
+		}
+		if o == binary.LittleEndian {
+			vs["MarshalDefaultOrder"] = func() ([]byte, error) { return wkb.Marshal(g) }
+		}
+		return hexs + " ; " + um + " ; " + st + " ; " + apiAgree(data, vs)
+	case "val":
+		// driver.Valuer of each package, read back by the matching scanner:
+		//   w: wkb.Value / wkb.Scanner   e: ewkb.Value / ewkb.Scanner   p: ewkb.ValuePrefixSRID / ewkb.ScannerPrefixSRID
+		return guard(func() string {
+			kind := r.next()
+			srid := r.int()
+			g := r.geom()
+			var v interface{}
+			var err error
+			switch kind {
+			case "w":
+				v, err = wkb.Value(g).Value()
+			case "e":
+				v, err = ewkb.Value(g, srid).Value()
+			case "p":
+				v, err = ewkb.ValuePrefixSRID(g, srid).Value()
+			default:
+				return "badkind"
+			}
+			if err != nil {
+				return "err value"
+			}
+			vtok := "nil"
+			if v != nil {
+				b, ok := v.([]byte)
+				if !ok {
+					return "notbytes"
+				}
+				if b == nil {
+					vtok = "typednil"
+				} else {
+					vtok = hexOrEmpty(b)
+				}
+			}
+			var serr error
+			var valid bool
+			var sg orb.Geometry
+			ssrid := 0
+			switch kind {
+			case "w":
+				s := wkb.Scanner(nil)
+				serr = s.Scan(v)
+				valid, sg = s.Valid, s.Geometry
+			case "e":
+				s := ewkb.Scanner(nil)
+				serr = s.Scan(v)
+				valid, sg, ssrid = s.Valid, s.Geometry, s.SRID
+			case "p":
+				s := ewkb.ScannerPrefixSRID(nil)
+				serr = s.Scan(v)
+				valid, sg, ssrid = s.Valid, s.Geometry, s.SRID
+			}
+			out := ""
+			switch {
+			case serr != nil:
+				out = "err " + wkbErrClass(serr)
+			case !valid:
+				out = "null"
+			default:
+				out = fmt.Sprintf("ok %d %s", ssrid, gs(sg))
+			}
+			return vtok + " ; " + out
+		})
+	case "big":
+		// sizes above the decoders' allocation caps, every decode path; outcomes as digests
+		return guard(func() string {
+			shape := r.next()
+			n := r.int()
+			o := order(r.next())
+			srid := r.int()
+			base, err := strconv.ParseUint(r.next(), 16, 64)
+			if err != nil {
+				return "badbase"
+			}
+			g := bigGeom(shape, n, base)
+			data, err := ewkb.Marshal(g, srid, o)
+			if err != nil {
+				return "err marshal"
+			}
+			out := []string{fmt.Sprintf("%d %s", len(data), fnvHex(hex.EncodeToString(data)))}
+			out = append(out, guard(func() string { return wkbDigest(ewkb.Unmarshal(append([]byte(nil), data...))) }))
+			out = append(out, guard(func() string { return wkbDigest(ewkb.NewDecoder(bytes.NewReader(data)).Decode()) }))
+			for _, d := range c01Dests {
+				out = append(out, guard(func() string {
+					dest, read := newDest(d)
+					s := ewkb.Scanner(dest)
+					if err := s.Scan(append([]byte(nil), data...)); err != nil {
+						return "err " + wkbErrClass(err)
+					}
+					if !s.Valid {
+						return "invalid"
+					}
+					if read != nil && gs(read()) != gs(s.Geometry) {
+						return "dest-differs"
+					}
+					return wkbDigest(s.Geometry, s.SRID, nil)
+				}))
+			}
+			return strings.Join(out, " ; ")
+		})
+	case "scq":
+		// ONE scanner value reused for a sequence of Scan calls (rows), incl. NULL rows and rows that fail
+		return guard(func() string {
+			which := r.next()
+			d := r.next()
+			n := r.int()
+			dest, read := newDest(d)
+			var es *ewkb.GeometryScanner
+			var ws *wkb.GeometryScanner
+			switch which {
+			case "e":
+				es = ewkb.Scanner(dest)
+			case "p":
+				es = ewkb.ScannerPrefixSRID(dest)
+			case "w":
+				ws = wkb.Scanner(dest)
+			default:
+				return "badwhich"
+			}
+			var out []string
+			for i := 0; i < n; i++ {
+				var in interface{}
+				switch k := r.next(); k {
+				case "null":
+					in = nil
+				case "nilb":
+					in = []byte(nil)
+				case "b":
+					o := order(r.next())
+					srid := r.int()
+					framing := r.next()
+					psrid := uint32(pu(r.next()))
+					g := r.geom()
+					b, err := ewkb.Marshal(g, srid, o)
+					if err != nil {
+						return "err marshal"
+					}
+					in = frame(framing, psrid, b)
+				default:
+					return "baditem"
+				}
+				var err error
+				var valid bool
+				var sg orb.Geometry
+				ssrid := 0
+				if es != nil {
+					err = es.Scan(in)
+					valid, sg, ssrid = es.Valid, es.Geometry, es.SRID
+				} else {
+					err = ws.Scan(in)
+					valid, sg = ws.Valid, ws.Geometry
+				}
+				e := "-"
+				if err != nil {
+					e = wkbErrClass(err)
+				}
+				step := fmt.Sprintf("%s %s %d %s", e, b2s(valid), ssrid, gs(sg))
+				if err == nil && valid && read != nil && gs(read()) != gs(sg) {
+					step += " dest-differs"
+				}
+				out = append(out, step)
+			}
+			return strings.Join(out, " ; ")
+		})
 	case "seq":
 		// one Encoder reused for several Encode calls with changing byte order / SRID (via SetSRID or
 		// the per-call argument), then one Decoder reading the values back from the stream
@@ -205,15 +621,25 @@ func runC01(op string, in []string) string {
 			if read != nil && gs(read()) != gs(s.Geometry) {
 				return "dest-differs " + gs(read())
 			}
-			return fmt.Sprintf("ok %d %s", s.SRID, gs(s.Geometry))
+			res := fmt.Sprintf("ok %d %s", s.SRID, gs(s.Geometry))
+			if d == "B" {
+				res += " ; " + boundOracle(g)
+			}
+			return res
 		})
 	case "wsc":
 		return guard(func() string {
-			d := r.next()
+			d, ext, o, srid := wscDest(r.next())
 			framing := r.next()
 			psrid := uint32(pu(r.next()))
 			g := r.geom()
-			b, err := wkb.Marshal(g)
+			var b []byte
+			var err error
+			if ext {
+				b, err = ewkb.Marshal(g, srid, o)
+			} else {
+				b, err = wkb.Marshal(g)
+			}
 			if err != nil {
 				return "err marshal"
 			}
@@ -229,7 +655,11 @@ func runC01(op string, in []string) string {
 			if read != nil && gs(read()) != gs(s.Geometry) {
 				return "dest-differs " + gs(read())
 			}
-			return fmt.Sprintf("ok 0 %s", gs(s.Geometry))
+			res := fmt.Sprintf("ok 0 %s", gs(s.Geometry))
+			if d == "B" {
+				res += " ; " + boundOracle(g)
+			}
+			return res
 		})
 	}
 	return "badop"
@@ -261,8 +691,11 @@ func genForDest(c *Ctx, o GenOpts, d string) orb.Geometry {
 	}
 	switch d {
 	case "P":
-		if r.Intn(2) == 0 {
+		switch r.Intn(5) {
+		case 0, 1:
 			return genPoint(r, o.Mode)
+		case 2: // a multi with 2+ members must be rejected, not truncated
+			return orb.MultiPoint{genPoint(r, o.Mode), genPoint(r, o.Mode)}
 		}
 		return orb.MultiPoint{genPoint(r, o.Mode)}
 	case "MP":
@@ -279,7 +712,13 @@ func genForDest(c *Ctx, o GenOpts, d string) orb.Geometry {
 		}
 		return orb.MultiLineString{orb.LineString(genPoints(r, o.Mode, o.MaxPts)), orb.LineString(genPoints(r, o.Mode, o.MaxPts))}
 	case "R", "PG", "MPG":
-		switch r.Intn(5) {
+		switch r.Intn(6) {
+		case 5: // a multi with 2+ members: only *orb.MultiPolygon (and the bound) may accept it
+			m := orb.MultiPolygon{genPolygon(r, o.Mode, o.MaxPts), genPolygon(r, o.Mode, o.MaxPts)}
+			if r.Intn(3) == 0 {
+				m = append(m, genPolygon(r, o.Mode, o.MaxPts))
+			}
+			return m
 		case 0:
 			return genRing(r, o.Mode, o.MaxPts)
 		case 1:
@@ -301,36 +740,183 @@ func genForDest(c *Ctx, o GenOpts, d string) orb.Geometry {
 	return genGeom(r, o, 0)
 }
 
+// c01NilMembers: values whose MEMBERS are nil slices (finding D1: the encoder used to count such a
+// member and then write nothing for it).
+func c01NilMembers() []orb.Geometry {
+	ls := orb.LineString{{1, 2}, {3, 4}}
+	pg := orb.Polygon{{{0, 0}, {1, 0}, {1, 1}, {0, 0}}}
+	return []orb.Geometry{
+		orb.MultiLineString{nil, ls},
+		orb.MultiLineString{ls, nil},
+		orb.MultiLineString{nil},
+		make(orb.MultiPolygon, 1),
+		orb.MultiPolygon{nil, pg},
+		orb.MultiPolygon{pg, nil, pg},
+		orb.MultiPolygon{{nil}},
+		orb.Polygon{nil},
+		orb.Polygon{nil, pg[0]},
+		orb.Collection{orb.LineString(nil), orb.Point{1, 2}},
+		orb.Collection{orb.MultiPoint(nil)},
+		orb.Collection{orb.Point{1, 2}, orb.Polygon(nil), orb.MultiLineString(nil), orb.MultiPolygon(nil), orb.Ring(nil), orb.Collection(nil), orb.Point{3, 4}},
+		orb.Collection{orb.Collection{orb.MultiLineString{nil, ls}}, orb.MultiPolygon{nil}},
+	}
+}
+
+// sizes around the decoders' allocation caps (wkbcommon.MaxMultiAlloc = 100, MaxPointsAlloc = 10000)
+var c01BigMulti = []string{"MP", "MLS", "PG", "MPG", "C", "CC"}            // capped at MaxMultiAlloc somewhere
+var c01BigPoints = []string{"LS", "R", "MP", "PGR", "MLSL", "MPGR", "CLS"} // capped at MaxPointsAlloc somewhere
+var c01BigBases = []uint64{0x3ff0000000000000, 0x4024000000000000, 0xc024000000000000}
+
+func genScqItem(c *Ctx, opt GenOpts, which, d string) string {
+	r := c.Rng
+	switch r.Intn(8) {
+	case 0:
+		return "null"
+	case 1:
+		return "nilb"
+	}
+	fr := c01Framings[r.Intn(len(c01Framings))]
+	if which == "p" {
+		fr = "prefix"
+	} else if r.Intn(2) == 0 {
+		fr = "raw"
+	}
+	srid := genSrid(c)
+	if r.Intn(2) == 0 {
+		srid = 0 // rows without an SRID after rows with one: the stale-SRID shape
+	}
+	ps := genSrid(c)
+	if which == "p" && r.Intn(2) == 0 {
+		ps = 0
+	}
+	return fmt.Sprintf("b %d %d %s %d %s", r.Intn(2), srid, fr, ps, gsN(genForDest(c, opt, d)))
+}
+
 func genC01(c *Ctx) {
 	r := c.Rng
-	if c.Shard == 0 {
-		for _, g := range orb.AllGeometries {
-			for _, o := range []string{"0", "1"} {
+	idx := 0
+	mine := func() bool { idx++; return c.Mine(idx) }
+	// ---- fixed families (spread over the shards)
+	for _, g := range orb.AllGeometries {
+		for _, o := range []string{"0", "1"} {
+			if mine() {
 				c.Case("rt", o+" 0 "+gs(g))
 				c.Case("rt", o+" 4326 "+gs(g))
+				c.Case("wrt", o+" "+gs(g))
+				for _, k := range []string{"w", "e", "p"} {
+					c.Case("val", k+" 4326 "+gs(g))
+				}
 			}
 		}
 	}
+	for _, g := range c01NilMembers() {
+		for _, o := range []string{"0", "1"} {
+			if !mine() {
+				continue
+			}
+			t := gsN(g)
+			c.Case("rt", o+" 0 "+t)
+			c.Case("rt", o+" 4326 "+t)
+			c.Case("wrt", o+" "+t)
+			c.Case("sc", o+" 4326 any raw 0 "+t)
+			c.Case("sc", o+" 0 any hex 0 "+t)
+			c.Case("seq", "2 "+o+" 4326 set "+t+" "+o+" 0 arg "+t)
+			c.Case("wsc", "any:"+o+":0 raw 0 "+t)
+			c.Case("val", "e 4326 "+t)
+		}
+	}
+	for _, k := range []string{"w", "e", "p"} { // NULL: nil interface and typed nil slices
+		for _, t := range []string{"nil", "nMP", "nLS", "nMLS", "nR", "nPG", "nMPG", "nC"} {
+			if mine() {
+				c.Case("val", k+" 4326 "+t)
+			}
+		}
+	}
+	// sizes just above (and at) the allocation caps, both byte orders, every decode path
+	bigCase := func(shape string, n int, o int, srid int, base uint64) {
+		c.Case("big", fmt.Sprintf("%s %d %d %d %016x", shape, n, o, srid, base))
+	}
+	for _, sh := range c01BigMulti {
+		for o := 0; o < 2; o++ {
+			if mine() {
+				bigCase(sh, 101, o, 4326*o, c01BigBases[0])
+			}
+			if mine() {
+				bigCase(sh, 100, o, 4326*(1-o), c01BigBases[1])
+			}
+		}
+	}
+	for _, sh := range c01BigPoints {
+		for o := 0; o < 2; o++ {
+			if mine() {
+				bigCase(sh, 10001, o, 4326*o, c01BigBases[0])
+			}
+		}
+	}
+	if c.Tier == "thorough" {
+		for _, sh := range c01BigPoints {
+			for o := 0; o < 2; o++ {
+				for _, n := range []int{10000, 10002, 20001} {
+					if mine() {
+						bigCase(sh, n, o, 4326*(1-o), c01BigBases[2])
+					}
+				}
+			}
+		}
+	}
+	// two-row scanner reuse: a row with an SRID, then one without (and NULL rows)
+	p12 := "P 3ff0000000000000 4000000000000000"
+	for _, w := range []string{"e", "p", "w"} {
+		fr := "raw"
+		if w == "p" {
+			fr = "prefix"
+		}
+		if mine() {
+			c.Case("scq", fmt.Sprintf("%s any 2 b 1 4326 %s 0 %s b 1 0 %s 0 LS 1 3ff0000000000000 4000000000000000", w, fr, p12, fr))
+			c.Case("scq", fmt.Sprintf("%s any 3 b 1 4326 %s 7 %s null b 0 0 %s 0 %s", w, fr, p12, fr, p12))
+			c.Case("scq", fmt.Sprintf("%s P 4 b 1 4326 %s 7 %s nilb b 0 0 %s 0 LS 0 b 1 0 %s 0 %s", w, fr, p12, fr, fr, p12))
+		}
+	}
+
+	// ---- random families
 	for k := 0; k < c.Budget && !c.Exhausted(); k++ {
 		mode := []CoordMode{CoordBits, CoordBits, CoordFloat, CoordSmallInt}[r.Intn(4)]
 		opt := GenOpts{Mode: mode, MaxPts: 6, MaxDepth: 4, TopNil: true, InnerNil: true}
 		g := genGeom(r, opt, 0)
 		c.Case("rt", fmt.Sprintf("%d %d %s", r.Intn(2), genSrid(c), gsN(g)))
+		if k%2 == 0 {
+			c.Case("wrt", fmt.Sprintf("%d %s", r.Intn(2), gsN(g)))
+		} else {
+			c.Case("val", fmt.Sprintf("%s %d %s", []string{"w", "e", "p"}[r.Intn(3)], genSrid(c), gsN(g)))
+		}
 		// scanner: destination x framing
 		d := c01Dests[r.Intn(len(c01Dests))]
 		fr := c01Framings[r.Intn(len(c01Framings))]
 		opt.TopNil = false
 		g2 := genForDest(c, opt, d)
-		c.Case("sc", fmt.Sprintf("%d %d %s %s %d %s", r.Intn(2), genSrid(c), d, fr, genSrid(c), gs(g2)))
+		c.Case("sc", fmt.Sprintf("%d %d %s %s %d %s", r.Intn(2), genSrid(c), d, fr, genSrid(c), gsN(g2)))
 		if k%3 == 0 { // encoder / decoder reuse over a stream of values
 			n := 1 + r.Intn(4)
 			parts := []string{fmt.Sprint(n)}
 			for i := 0; i < n; i++ {
 				o2 := opt
 				o2.TopNil = r.Intn(4) == 0
-				parts = append(parts, fmt.Sprintf("%d %d %s %s", r.Intn(2), genSrid(c), []string{"set", "arg"}[r.Intn(2)], gs(genGeom(r, o2, 0))))
+				parts = append(parts, fmt.Sprintf("%d %d %s %s", r.Intn(2), genSrid(c), []string{"set", "arg"}[r.Intn(2)], gsN(genGeom(r, o2, 0))))
 			}
 			c.Case("seq", strings.Join(parts, " "))
+		}
+		if k%3 == 1 { // one scanner value reused over several rows
+			w := []string{"e", "p", "w"}[r.Intn(3)]
+			d2 := c01Dests[r.Intn(len(c01Dests))]
+			if r.Intn(2) == 0 || (d2 == "B" && mode == CoordBits) { // NaN / -0 bounds are judged by sc / wsc
+				d2 = "any"
+			}
+			n := 2 + r.Intn(4)
+			parts := []string{w, d2, fmt.Sprint(n)}
+			for i := 0; i < n; i++ {
+				parts = append(parts, genScqItem(c, opt, w, d2))
+			}
+			c.Case("scq", strings.Join(parts, " "))
 		}
 		// deprecated wkb.Scanner incl. its MySQL prefix retry; prefix bytes uniform so the ambiguous class is hit
 		fr2 := c01Framings[r.Intn(len(c01Framings))]
@@ -338,6 +924,17 @@ func genC01(c *Ctx) {
 		if r.Intn(3) == 0 {
 			ps = uint32(r.Intn(70000))
 		}
-		c.Case("wsc", fmt.Sprintf("%s %s %d %s", d, fr2, ps, gs(g2)))
+		dtok := d
+		if r.Intn(2) == 0 { // big endian and/or EWKB bytes with an SRID (which wkb.Scanner drops)
+			dtok = fmt.Sprintf("%s:%d:%d", d, r.Intn(2), genSrid(c))
+		}
+		c.Case("wsc", fmt.Sprintf("%s %s %d %s", dtok, fr2, ps, gsN(g2)))
+		if c.Tier == "thorough" && k%4000 == 17 { // random sizes around the caps
+			if r.Intn(2) == 0 {
+				bigCase(c01BigMulti[r.Intn(len(c01BigMulti))], 99+r.Intn(120), r.Intn(2), genSrid(c), c01BigBases[r.Intn(3)])
+			} else {
+				bigCase(c01BigPoints[r.Intn(len(c01BigPoints))], 9999+r.Intn(4), r.Intn(2), genSrid(c), c01BigBases[r.Intn(3)])
+			}
+		}
 	}
 }
